@@ -16,7 +16,8 @@ PROPERTY_ID = 'C19'
 RULE = ('Legacy NDNApp + scripted producer on the virtual loop. Object: unsegmented, or 1..7 segments under /obj[/v=N]; FinalBlockId on '
         'the last segment only or on all; discovery (prefix Interest) answered by segment k for any k or by the unsegmented Data; '
         'retry_times 1..4 (and 0 without losses); a loss matrix (discovery/segment x attempt) biased to "r-1 losses then success" and "exactly r losses"; '
-        'optionally a Nack or a validator rejection on one segment. Oracle: yielded list == contents 0..last each once in order (or the '
+        'optionally a Nack or a validator rejection on one segment; without losses optionally a second concurrent fetch of the same object '
+        '(started 0 / 1 / 40 ms later) that must yield the same. Oracle: yielded list == contents 0..last each once in order (or the '
         'single content) when every row has fewer than r consecutive losses; otherwise InterestTimeout after exactly the preceding '
         'segments were yielded and exactly r Interests were seen for the exhausted one; Nack / ValidationFailure propagate at that '
         'segment; the producer never sees an Interest beyond the final segment. The sub-space N<=4, r<=3 with every loss matrix of '
@@ -128,11 +129,16 @@ def _run(sim, case, r):
             return False
         return True
 
-    out = []
-    box = {}
+    out, out2 = [], []
+    box, box2 = {}, {}
+    # a second fetch of the same object running concurrently in the same application (only without losses / faults, where the
+    # expected result of each fetch is simply the whole object)
+    twin = case.get('twin') if not loss and not case['fault'] else None
 
-    async def consume():
+    async def consume(out, box, delay=0):
         try:
+            if delay:
+                await asyncio.sleep(delay / 1000)
             async for c in segment_fetcher(sim.app, list(ask), timeout=TIMEOUT_MS, retry_times=rt_arg, validator=validator):
                 out.append(None if c is None else bytes(c))
             box['end'] = 'done'
@@ -141,7 +147,11 @@ def _run(sim, case, r):
             box['site'] = exc_site(e)
 
     async def spawn():
-        return asyncio.get_running_loop().create_task(consume())
+        t1 = asyncio.get_running_loop().create_task(consume(out, box))
+        if twin is not None:
+            t2 = asyncio.get_running_loop().create_task(consume(out2, box2, twin))
+            return asyncio.gather(t1, t2)
+        return t1
     task = sim.vl.run(spawn())
     for _ in range(400):
         if task.done():
@@ -211,9 +221,12 @@ def _run(sim, case, r):
         r.bad(f'C19/yield/{kind}', f'{label}: yielded {out} expected {want_out}; end {got_end}/{want_end}; loss={loss}; seen={seen}')
     if got_end != want_end:
         r.bad(f'C19/outcome/{got_end}/expected={want_end}', f'{label}: loss={loss} fault={fault} seen={seen} site={box.get("site")}')
+    if twin is not None and not r.violations and (out2 != want_out or box2.get('end') != want_end):
+        r.bad('C19/concurrent-fetch/second-fetch-differs', f'{label}: second fetch (started {twin} ms later) yielded {out2} end '
+              f'{box2.get("end")}; expected {want_out} / {want_end}; seen={seen}')
     if beyond:
         r.bad('C19/interest-beyond-final-segment', f'{label}: rows {beyond}; seen={seen}')
-    if not r.violations:
+    if not r.violations and twin is None:
         for row, n in want_attempts.items():
             if attempts.get(row, 0) != n:
                 r.bad(f'C19/attempt-count/{"exhausted" if exhausted(row) else "recovered"}',
@@ -231,7 +244,7 @@ def _run(sim, case, r):
     r.key = (N, case['disc_k'] % N if N else -1, rt, any_recover, any_exh, str(fault), case['final_on_all'],
              case['version'] is not None) if nontrivial else None
     r.classes = (f'N:{N}', f'r:{rt_arg}', 'k!=0' if knz else 'k=0', 'recover' if any_recover else '-', 'exhaust' if any_exh else '-',
-                 f'fault:{fault[0] if fault else "none"}')
+                 f'fault:{fault[0] if fault else "none"}') + (('concurrent-twin',) if twin is not None else ())
 
 
 @st.composite
@@ -256,7 +269,8 @@ def _case(draw):
     return {'n': n, 'retry': rt, 'disc_k': draw(st.integers(0, 7)), 'final_on_all': draw(st.booleans()),
             'other_final': draw(st.sampled_from([None, None, None, 'seq', 'off', 'ver', 'gen'])),
             'ask_segment': draw(st.one_of(st.none(), st.none(), st.none(), st.integers(0, 7))),
-            'version': draw(st.one_of(st.none(), st.sampled_from([0, 1, 255, 256, 2 ** 32]))), 'loss': loss, 'fault': fault}
+            'version': draw(st.one_of(st.none(), st.sampled_from([0, 1, 255, 256, 2 ** 32]))), 'loss': loss, 'fault': fault,
+            'twin': draw(st.sampled_from([None, None, 0, 1, 40]))}
 
 
 def _enum(tier):
